@@ -295,9 +295,11 @@ def r01_234(chk, cr):
         chk.ob("R01.3", CR, q, "the KD-tree used for merging is built on the wrapped positions",
                tr is not None and tr.as_atom() and "KDTree" in tr.as_atom()[1].key() and tr.as_atom()[2][0].key() == trans.key(),
                found=str(tr))
-        ds = defs.get("dist")
-        chk.ob("R01.3", CR, q, "coincident images are found by a tree-against-itself distance query bounded by the tolerance",
-               ds is not None and ".sparse_distance_matrix" in ds.key() and "max_distance=tolerance" in ds.key(), found=str(ds))
+        kind, desc = pair_enumeration(ev, defs)
+        chk.ob("R01.3", CR, q, "coincident images are enumerated by a tolerance-bounded query of the tree against itself, in a defined order "
+               "(with three or more coincident images the accumulated occupancy depends on the order in which pairs are merged)",
+               kind == "ordered", fingerprint="pair-enumeration", expected="tree.sparse_distance_matrix(tree, max_distance=tolerance).items() "
+               "or sorted(tree.query_pairs(tolerance))", found=desc)
         mi = defs.get("mask")
         chk.ob("R01.3", CR, q, "the mask starts all-true over every generated image",
                mi is not None and call_name(mi.as_atom() or ()) == "numpy.ones" and "dtype=bool" in mi.key(), found=str(mi))
@@ -309,9 +311,17 @@ def r01_234(chk, cr):
         chk.need(len(acc) == 1 and len(st) == 1, f"{q}: merge loop body not recognised")
         a, s = acc[0], st[0]
         loop = a.loops[-1]
-        chk.ob("R01.4", CR, q, "the merge loop runs over the pairs of the distance matrix",
-               loop.iter is not None and loop.iter.key() == "$dist.items()", found=str(loop.iter))
-        pair = P.atom(("sub", P.atom(("sub", loop.iter, (loop.index,))), (P.const(0),)))
+        kind, desc = pair_enumeration(ev, defs)
+        it = loop.iter
+        elem = P.atom(("sub", it, (loop.index,))) if it is not None else None
+        chk.ob("R01.4", CR, q, "the merge loop runs over the enumerated close pairs", kind is not None and it is not None and
+               (it.key() == "$dist.items()" or "query_pairs" in it.key()), found=str(it))
+        if it is not None and it.key() == "$dist.items()":
+            pair = P.atom(("sub", elem, (P.const(0),)))
+            needs_filter = True
+        else:
+            pair = elem
+            needs_filter = False           # query_pairs yields each pair once with i < j
         ia = P.atom(("sub", pair, (P.const(0),)))
         ib = P.atom(("sub", pair, (P.const(1),)))
         dst = a.index[0]
@@ -329,8 +339,27 @@ def r01_234(chk, cr):
             if ca and ca[0] == "le" and not pol and ca[1].key() == ib.key() and ca[2].key() == ia.key():
                 strict = True
         chk.ob("R01.4", CR, q, "only pairs with i strictly below j are merged (self pairs never mask a site)",
-               strict and tuple((c.key(), p) for c, p in a.guards) == tuple((c.key(), p) for c, p in s.guards),
+               (strict or not needs_filter) and tuple((c.key(), p) for c, p in a.guards) == tuple((c.key(), p) for c, p in s.guards),
                found=[f"{'' if p else 'not '}{c}"[-80:] for c, p in a.guards][-1:])
+
+
+def pair_enumeration(ev, defs):
+    """How unit_cell_atoms enumerates coincident pairs -> ('ordered' | 'unordered' | None, description).
+
+    Frozen idiom table (DESIGN C01): scipy's sparse_distance_matrix returns a dictionary-of-keys matrix whose items() come in
+    row-major insertion order; KDTree.query_pairs returns a Python *set* (no order) unless it is sorted."""
+    ds = defs.get("dist")
+    if ds is not None and ".sparse_distance_matrix" in ds.key():
+        ok = "max_distance=tolerance" in ds.key() or ", tolerance)" in ds.key()
+        a = ds.as_atom()
+        same = bool(a and a[0] == "call" and a[2] and a[1].as_atom() and a[1].as_atom()[1].key() == a[2][0].key())
+        return ("ordered" if ok and same else None), str(ds)
+    for e in ev.events:
+        if e.kind == "call" and call_name(e.value.as_atom() or ()) == ".query_pairs":
+            srt = any(x.kind == "call" and call_name(x.value.as_atom() or ()) == "sorted" and e.value.key() in x.value.key() for x in ev.events)
+            arr = "output_type='ndarray'" in e.value.key()
+            return ("ordered" if srt else "unordered"), str(e.value) + (" (sorted)" if srt else " (a set: iteration order undefined)" if not arr else " (array, unsorted)")
+    raise AnalysisError("Crystal.unit_cell_atoms: unrecognised enumeration of coincident images (extend pair_enumeration consciously)")
 
 
 def r01_5(chk, repo, cr):
